@@ -26,7 +26,10 @@ RULE = ("a DML specification is drawn first (target table of a seeded database, 
         "tuples/lists, columns() split and placed anywhere, set()/where() interleaved, limit) on one of the ten query classes "
         "(SQLLiteQuery and Query are judged by the engine); plus DML statements of the shared `queries` family on all ten "
         "classes, plus a malformed stream (insert without into, scalar among rows, insert_or_replace outside SQLite, set as "
-        "row, aliased value, empty tuple). Non-trivial = a judged call list with >= 2 calls or >= 2 rows/SET pairs; distinct "
+        "row, aliased value, empty tuple); plus FORKS (a kept prefix from which 2-4 statements are derived, each judged against "
+        "its own specification, the prefix observed again afterwards), all 31 arithmetic (outer op, side, inner op) triples "
+        "as SET value / WHERE operand / DELETE criterion / INSERT value on a table of primes, and UPDATE/DELETE with a "
+        "correlated IN / EXISTS / comparison sub-query whose criteria come from separate where() calls. Non-trivial = a judged call list with >= 2 calls or >= 2 rows/SET pairs; distinct "
         "by JSON of the case.")
 TRUSTED = [
     "SQLite 3.40.1 (Python sqlite3) as the engine; the reference effect is explicit SQL with bound parameters built by "
@@ -107,7 +110,7 @@ def corpus():
 
 
 def gen_cases(rng, tier):
-    n = 1500 if tier == "quick" else 30000
+    n = 1500 if tier == "quick" else 14000
     g = gn.G(rng)
     fg = mr.FG(rng, hazards=0.0)
     qg = qf.QGen(rng, p_alias=0.1, p_subq=0.0, hostile=0.3)
